@@ -403,7 +403,8 @@ def contract_fn(text, opts, log, what):
         body = "{ proof { assert(false); }" + body[1:]
     if opts.get("external_body"):
         head = "#[verifier::external_body]\n" + head
-        log.append("external_body (body NOT verified, contract assumed)")
+        body = "{ unimplemented!() }"
+        log.append("external_body (body dropped and NOT verified, contract assumed)")
     if contract:
         return head.rstrip() + "\n" + contract + "\n" + body
     return head.rstrip() + "\n" + body
